@@ -142,6 +142,60 @@ impl Rec {
         self.check_state("partial_cmp");
         let f = |x: bool| if x { '1' } else { '0' };
         self.ev(format!("rel {} {} {}{}{}{}{}{}{}", hex80(a), hex80(b), f(lt), f(le), f(gt), f(ge), f(eq), f(ne), pc));
+        self.rel_by_value(a, b);
+    }
+    /// the same relations with the operands handed by value to small functions that are not inlined (operands whose bytes
+    /// were last written by ordinary compiled code - argument passing, moves, copies - not by one of the crate's own
+    /// assembly blocks); logged as an ordinary `rel a b` event
+    fn rel_by_value(&mut self, a: f80, b: f80) {
+        #[inline(never)]
+        fn lt(a: f80, b: f80) -> bool {
+            a < b
+        }
+        #[inline(never)]
+        fn le(a: f80, b: f80) -> bool {
+            a <= b
+        }
+        #[inline(never)]
+        fn gt(a: f80, b: f80) -> bool {
+            a > b
+        }
+        #[inline(never)]
+        fn ge(a: f80, b: f80) -> bool {
+            a >= b
+        }
+        #[inline(never)]
+        fn eq(a: f80, b: f80) -> bool {
+            a == b
+        }
+        #[inline(never)]
+        fn ne(a: f80, b: f80) -> bool {
+            a != b
+        }
+        #[inline(never)]
+        fn pc(a: f80, b: f80) -> Option<Ordering> {
+            a.partial_cmp(&b)
+        }
+        #[inline(never)]
+        fn pc_pair(p: (f80, f80)) -> Option<Ordering> {
+            let (x, y) = p;
+            PartialOrd::partial_cmp(&x, &y)
+        }
+        let (x, y) = (std::hint::black_box(a), std::hint::black_box(b));
+        let r = lib!((lt(x, y), le(x, y), gt(x, y), ge(x, y), eq(x, y), ne(x, y), pc(x, y), pc_pair((x, y))));
+        self.check_state("partial_cmp");
+        let code = |o: Option<Ordering>| match o {
+            Some(Ordering::Less) => 'L',
+            Some(Ordering::Equal) => 'E',
+            Some(Ordering::Greater) => 'G',
+            None => 'N',
+        };
+        let f = |x: bool| if x { '1' } else { '0' };
+        self.ev(format!("rel {} {} {}{}{}{}{}{}{}", hex80(a), hex80(b), f(r.0), f(r.1), f(r.2), f(r.3), f(r.4), f(r.5), code(r.6)));
+        if r.6 != r.7 {
+            // (never equal for a broken comparison only by accident; the oracle judges the first, this the agreement)
+            self.ev(format!("rel {} {} {}{}{}{}{}{}{}", hex80(a), hex80(b), f(r.0), f(r.1), f(r.2), f(r.3), f(r.4), f(r.5), code(r.7)));
+        }
     }
     /// the relations of a value with itself through one and the same reference on both sides (a shortcut keyed on
     /// the operands' addresses is wrong for NaN); logged as an ordinary `rel x x` event
@@ -300,6 +354,24 @@ fn main() {
 
     let thorough = a.thorough();
     let seed = a.seed();
+    // the documented start-up call: after it the control word must still ask for extended precision and rounding to
+    // nearest (the oracle, and every caller, assume both), and all the arithmetic below runs after it
+    {
+        lib!(rlib_f80::f80_init());
+        let (cw1, _sw1, tag1) = x87_env();
+        if cw1 != cw0 || tag1 != 0xFFFF {
+            report.violation(
+                "x87_state:f80_init",
+                Json::obj()
+                    .set("what", "f80_init() left the x87 control word changed (or the register stack non-empty): precision control / rounding control are no longer what the arithmetic relies on")
+                    .set("control_word_before", format!("{:#06x}", cw0))
+                    .set("control_word_after", format!("{:#06x}", cw1))
+                    .set("tag_word_after", format!("{:#06x}", tag1)),
+                vec![],
+            );
+        }
+        report.inc("f80_init_calls");
+    }
     let r = catch(|| {
         let set = boundary_set();
         // (1) all ordered pairs of the boundary set x all operators and relations
